@@ -721,8 +721,6 @@ def main(run):
             import re
             for ax in re.findall(r"([A-Z]\w*(?:\.\w+)+)\s*:", pa[name]):
                 run.axioms.add(ax)
-        if name.endswith("_refuted"):
-            run.refuted.append(name[:-len("_refuted")])
     run.checker_cmds.append("make -C coq theories/C18/Props.vo")
     np.random.seed(run.seed)
     warnings.simplefilter("ignore")
@@ -742,6 +740,14 @@ def main(run):
             uniq.append(f)
     run.notes["failing_cases_per_key"] = {k: sum(1 for f in run.findings if f.key == k) for k in seen}
     run.findings = uniq
+    REF = {"renyi_alpha0": "classical_renyi_entropy:alpha=0:zero_probabilities",
+           "tsallis_alpha1_base2": "classical_tsallis_entropy:alpha=1:base=2"}
+    for thm, prefix in REF.items():
+        if any(f.key.startswith(prefix) for f in run.findings):
+            run.refuted.append(thm)
+        else:
+            run.notes.setdefault("refutations_not_reproduced", []).append(
+                f"{thm}_refuted is a theorem about the branch as written; the defect no longer reproduces on this tree")
     run.notes["test_labelled_checks"] = T.n
     run.notes["test_labelled_failures"] = T.failed
     return run.finish(level="proof", rule=RULE)
